@@ -45,13 +45,13 @@ def SLe (st : List LineStat) (s : St) : Prop := ∀ e ∈ st, e.lineNum ≤ s.r.
 /-- one pass of the per-line loop keeps run A's invariants (discharged in GM.Proof.ShiftSimXEnd3) -/
 def PassKeeps (b : Bytes) : Prop :=
   ∀ (ob : List Block) (s s' : St) (bl : List LineStat) (x : LineOutcome × List LineStat),
-    AU b s → s.pc.opened = ob → ob ≠ [] → (∀ z ∈ ob, Cov6 z.bp) → HasLine b s → SLe bl s →
+    AU b s → s.pc.opened = ob → ob ≠ [] → (∀ z ∈ ob, Cov6 z.bp) → HL b s → SLe bl s →
     lineLoop 0 ob ((ob.length : Int) - 1) ob 0 bl s = .ok (x, s') → AUr b s' ∧ SLe x.2 s' ∧ x.1 = .next
 
 /-- `openBlocks` at the top of the outer loop keeps them -/
 def OpenKeeps (b : Bytes) : Prop :=
   ∀ (blank : Bool) (s s' : St) (r : OpenResult),
-    AU b s → s.pc.opened = [] → HasLine b s → openBlocks 0 blank s = .ok (r, s') → AUr b s'
+    AU b s → s.pc.opened = [] → HL b s → openBlocks 0 blank s = .ok (r, s') → AUr b s'
 
 theorem AUr.adv {b : Bytes} {s : St} (h : AUr b s) (h0 : 0 ≤ s.r.pos.stop) (hgr : ∀ (t : St) r', tl_GP t → tl_GP { t with r := r' }) :
     AU b { s with r := s.r.advanceLine } :=
